@@ -274,7 +274,7 @@ def run(chk: Check):
             gcol = sp.param_grid
             for j in range(sp.dims):
                 near = gcol[j][np.argmin(np.abs(gcol[j] - want[j]))]
-                if abs(out[r][j] - want[j]) > abs(near - want[j]) + 1e-12 * max(1.0, abs(want[j])):
+                if not (abs(out[r][j] - want[j]) <= abs(near - want[j]) + 1e-12 * max(1.0, abs(want[j]))):
                     chk.fail(f"best-batch proposal coordinate {j} = {out[r][j]!r} is not the displaced parent {want[j]!r} confined to the space", case)
             reqs.append(f"smp.bestbatch {sp.dims} " + " ".join(f2h(x) for x in sp.parameters_precision.tolist()) + " " + " ".join(f2h(x) for x in sp.parameters_bounds[0].tolist())
                         + " " + " ".join(f2h(x) for x in sp.parameters_bounds[1].tolist()) + " " + " ".join(fl(gc) for gc in gcol) + " " + " ".join(f2h(x) for x in parent.tolist())
